@@ -80,11 +80,16 @@ def biomass_accumulation(
         WPadj = WPadj * Crop.fCO2
 
         # Calculate biomass accumulation on current day
-        # No water stress
-        dB_NS = WPadj * (TrPot / et0)
-        # With water stress
-        dB = WPadj * (Tr / et0)
-        if np.isnan(dB) == True:
+        if et0 > 0:
+            # No water stress
+            dB_NS = WPadj * (TrPot / et0)
+            # With water stress
+            dB = WPadj * (Tr / et0)
+            if np.isnan(dB) == True:
+                dB = 0
+        else:
+            # No evaporative demand: no transpiration, nothing is produced
+            dB_NS = 0
             dB = 0
 
         # Update biomass accumulation
